@@ -33,3 +33,36 @@ Definition ev_rkfind nx x h := canon_opt (rk_find (rk_new nx) x h).
 Definition ev_rkrfind nx x h := canon_opt (rk_rfind (rk_new_rev nx) x h).
 Definition rank_id (b : N) : N := b.
 Definition rank_const (c : N) (_ : N) : N := c.
+
+(* Two-Way blocks: construction + search, as the driver runs them *)
+Definition ev_twfind x a h :=
+  canon_opt (tw <- tw_new x;; r <- tw_find tw None a h x prestate_new;; ret (fst r)).
+Definition ev_twrfind x h :=
+  canon_opt (tw <- tw_new_rev x;; tw_rfind tw h x).
+
+(* iterator histories: the whole output list folded into one number (the driver's printed list is folded the
+   same way by tools/vmcheck.py).  code = 4 * v + tag: 0 None, 1 Some v, 2 size_hint (v = lo * 2^20 + hi), 3 count *)
+From Memchr Require Import Mem.Iter Sub.FindIter.
+
+Definition mix (acc c : N) : N := ((acc * 1000003 + c + 1) mod 2305843009213693951)%N.
+Definition code_opt (o : option nat) : N := match o with None => 0 | Some i => 4 * N.of_nat i + 1 end%N.
+Definition code_hint (lo hi : nat) : N := (4 * (N.of_nat lo * 1048576 + N.of_nat hi) + 2)%N.
+Definition code_out (o : iout) : N :=
+  match o with
+  | RItem x => code_opt x
+  | RHint lo hi => code_hint lo hi
+  | RCount n => (4 * N.of_nat n + 3)%N
+  end.
+
+Definition canon_list {A} (code : A -> list N) (m : M (list A)) : N * N * N :=
+  (match fst m with
+   | Ok l => (1, fold_left mix (flat_map code l) 0)
+   | Panic _ => (2, 0)
+   end, N.of_nat (cost (snd m)))%N.
+
+Definition ev_iter (b : backend) ns a h ops := canon_list (fun o => [code_out o]) (iter_run b ns a h ops (iter_new h)).
+Definition ev_mmiter_fwd cfg (rank : N -> N) ar a h x k :=
+  canon_list (fun (o : option nat * (nat * nat)) => [code_hint (fst (snd o)) (snd (snd o)); code_opt (fst o)])
+             (f <- finder_new cfg rank ar x;; fiter_run ar f a h k fiter_new).
+Definition ev_mmiter_rev ar a h x k :=
+  canon_list (fun o => [code_opt o]) (f <- rfinder_new x;; riter_run ar f a h k (riter_new h)).
